@@ -579,10 +579,19 @@ pub fn run_property(ctx: &Ctx, prop: &dyn Property) -> Summary {
         wall
     );
     if exit_code == 0 && !harness_errors.is_empty() {
+        // A reach probe at zero says that this run did not exercise something it usually
+        // does.  Whether that is a defect of the harness depends on the tree: a change that
+        // stops calling getcwd() makes "getcwd fault fired" unreachable without making the
+        // check wrong.  So it is fatal only where the tree is known to be the pinned one
+        // (selfcheck sets SEEDSIM_STRICT_PROBES); otherwise it is reported and recorded.
+        let strict = std::env::var("SEEDSIM_STRICT_PROBES").map(|v| v == "1").unwrap_or(false);
         for h in &harness_errors {
-            eprintln!("HARNESS-ERROR: {h}");
+            let fatal = strict || !h.starts_with("coverage probe");
+            eprintln!("{}: {h}", if fatal { "HARNESS-ERROR" } else { "COVERAGE-NOTE" });
+            if fatal {
+                exit_code = 2;
+            }
         }
-        exit_code = 2;
     }
     Summary { violations: nviol, exit_code }
 }
